@@ -116,3 +116,55 @@ theorem loop_down (ok : Int → Bool) (start stop step : Int) (n fuel : Nat) (hs
     exact h2
 
 end BeyondVerif.Iter
+
+namespace BeyondVerif.Iter
+
+theorem grid_head (start step : Int) (n : Nat) : (grid start step n).head? = some start := by
+  cases n with
+  | zero => simp [grid_zero]
+  | succ n => simp [grid_succ]
+
+theorem grid_getLast (start step : Int) (n : Nat) : (grid start step n).getLast? = some (start + (n : Int) * step) := by
+  simp [grid, List.range_succ]
+
+/-- the marching loop of `KeplerNum._iter`: `m` steps, `m` the least number with `start + m·h ≥ stop` -/
+theorem march_exact (h stop : Int) (m : Nat) : ∀ (start : Int) (fuel : Nat),
+    (∀ k : Nat, k < m → start + (k : Int) * h < stop) → stop ≤ start + (m : Int) * h → m < fuel →
+    (march h stop fuel start).map (start :: ·) = some (grid start h m) := by
+  induction m with
+  | zero =>
+    intro start fuel _ hhi hf
+    obtain ⟨f, rfl⟩ : ∃ f, fuel = f + 1 := ⟨fuel - 1, by omega⟩
+    simp only [Nat.cast_zero, zero_mul, add_zero] at hhi
+    have : ¬ start < stop := by omega
+    simp [march, this, grid_zero]
+  | succ m ih =>
+    intro start fuel hlo hhi hf
+    obtain ⟨f, rfl⟩ : ∃ f, fuel = f + 1 := ⟨fuel - 1, by omega⟩
+    have h0 := hlo 0 (by omega)
+    simp only [Nat.cast_zero, zero_mul, add_zero] at h0
+    have := ih (start + h) f
+      (fun k hk => by
+        have := hlo (k + 1) (by omega)
+        have e : start + ((k + 1 : Nat) : Int) * h = start + h + (k : Int) * h := by push_cast; ring
+        rwa [e] at this)
+      (by
+        have e : start + ((m + 1 : Nat) : Int) * h = start + h + (m : Int) * h := by push_cast; ring
+        rwa [e] at hhi)
+      (by omega)
+    rw [grid_succ]
+    simp only [march, h0, if_true]
+    cases hm : march h stop f (start + h) with
+    | none => simp [hm] at this
+    | some l => simp [hm] at this; simp [this]
+
+theorem ownPts_all (lo hi : Int) (l : List Int) (h : ∀ d ∈ l, lo ≤ d ∧ d ≤ hi) : ownPts lo hi l = l := by
+  induction l with
+  | nil => rfl
+  | cons d r ih =>
+    have hd := h d (by simp)
+    have h1 : ¬ d < lo := by omega
+    have h2 : ¬ d > hi := by omega
+    simp [ownPts, h1, h2, ih (fun x hx => h x (by simp [hx]))]
+
+end BeyondVerif.Iter
